@@ -7,6 +7,7 @@
 EXTENDS GenDoc, SExec, SExec2, Json
 
 CONSTANTS MaxOverlay,    \* number of benign overlay entries (0..MaxOverlay)
+          FalsyOverlays, \* whether the benign overlays include falsy-but-present values (0, "", false, 0.0)
           TRSets         \* the sets of registered custom type resolvers to explore (see GQL!EffectiveRT)
 
 Lit(t, v) == [t |-> t, v |-> v]
@@ -38,7 +39,7 @@ AlphaOf(f) == [tn \in AllTypeNames |-> IF tn \in DOMAIN f THEN f[tn] ELSE {}]
 \* feature groups
 AlphaBasic == AlphaOf([Query |-> {"o", "s", "lo"}, T |-> {"s", "o", "d"}])
 AlphaAbstract == AlphaOf([Query |-> {"p", "lp", "u"}, P |-> {"s", "__typename"}, A |-> {"a", "s"}, B |-> {"b", "d"}, C |-> {"c"}, U |-> {"__typename"}])
-AlphaTypeRes == AlphaOf([Query |-> {"p", "lp", "u"}, T |-> {"p"}, P |-> {"__typename", "p"}, A |-> {"a"}, B |-> {"b"}, U |-> {"__typename"}])
+AlphaTypeRes == AlphaOf([Query |-> {"p", "lp", "lnp", "u", "lu"}, T |-> {"p"}, P |-> {"__typename", "p"}, A |-> {"a"}, B |-> {"b"}, U |-> {"__typename"}])
 \* a fragment on an interface under a field of an implementing object type ("widening"), then values of the other implementers
 AlphaWiden == AlphaOf([Query |-> {"a", "lp"}, A |-> {"s"}, P |-> {"s"}, B |-> {"b"}])
 AlphaLists == AlphaOf([Query |-> {"lo", "lnn", "nl", "ll", "le", "ls"}, T |-> {"s", "lo", "e"}])
@@ -73,6 +74,7 @@ AlphaMultiD == AlphaOf([Query |-> {"s", "o"}, T |-> {"s"}])
 DirsMixW == {<<>>, <<Dir("include", Lit("bool", TRUE))>>, <<Dir("skip", Lit("var", "v"))>>, <<Dir("include", Lit("var", "w"))>>}
 VarValsBoolBoth == [ v |-> {Bool(TRUE), Bool(FALSE)}, w |-> {Bool(TRUE), Bool(FALSE)}, n |-> {Int(3)}, m |-> {Int(4)}, x |-> {Str("xs")}, y |-> {Int(5)} ]
 AlphaSimF == AlphaOf([Query |-> {"o", "on", "s"}, T |-> {"s", "d", "i", "sn"}])
+AlphaFalsy == AlphaOf([Query |-> {"s", "i", "bo", "fl", "idf", "o", "lp"}, T |-> {"d", "i"}, P |-> {"s"}, B |-> {"d"}])
 OKindsRaise == {[o |-> "raise"]}
 VarValsSmall == [ v |-> {Bool(TRUE), Bool(FALSE)}, w |-> {Bool(FALSE)}, n |-> {Int(3)}, m |-> {Int(4)}, x |-> {Str("xs")}, y |-> {Int(5)} ]
 AlphaSub == AlphaOf([Subscription |-> {"ev", "evs"}, T |-> {"s", "sn"}])
@@ -127,6 +129,11 @@ BenignAt(p) ==
   (IF ~IsNN(t) THEN {[o |-> "null"]} ELSE {})
   \cup (IF IsList(core) THEN {[o |-> "len", n |-> 0], [o |-> "len", n |-> 1], [o |-> "len", n |-> 3]} ELSE {})
   \cup (IF ~IsList(core) /\ IsAbstract(Named(core)) THEN {[o |-> "rt", tn |-> x] : x \in Possible(Named(core))} ELSE {})
+  \* falsy-but-present values: 0 / "" / false / 0.0 from a resolver, "" in a default-resolved attribute
+  \cup (IF FalsyOverlays /\ ~IsList(core) /\ Named(core) \in {"Int", "Float", "Boolean", "String", "ID"} THEN {[o |-> "falsy"]} ELSE {})
+  \cup (IF FalsyOverlays /\ ~IsList(core) /\ IsComposite(Named(core))
+            /\ (\E rt \in Possible(Named(core)) : \E f \in DOMAIN Types[rt].fields : Types[rt].fields[f].res = "D")
+        THEN {[o |-> "emptyd"]} ELSE {})
 
 Overlays(C0) ==
   LET ps == BigStep(C0).pos IN
